@@ -85,6 +85,8 @@ type tagEval struct {
 	// callHookEnv is like callHook but may look at the abstract values of the current frame
 	callHookEnv func(call *ssa.Call, val func(ssa.Value) aval) ([]aval, bool)
 	maxVisits   int // loop unrolling bound per path (default 2)
+	loadHookEnv func(load *ssa.UnOp, val func(ssa.Value) aval) (aval, bool)
+	storeObs    func(st *ssa.Store, v aval, val func(ssa.Value) aval)
 	globals map[*ssa.Global]map[string]constant.Value // string-keyed constant maps built in init
 	tables  map[*ssa.Global]map[int64]*ssa.Function   // package-level arrays/maps of functions, by constant index
 }
@@ -400,6 +402,12 @@ func (te *tagEval) run(fr *frame, b *ssa.BasicBlock, pred *ssa.BasicBlock, depth
 					fr.env[x] = xv
 				}
 			case *ssa.UnOp:
+				if x.Op == token.MUL && te.loadHookEnv != nil {
+					if a, ok := te.loadHookEnv(x, func(v ssa.Value) aval { return te.val(fr, v) }); ok {
+						fr.env[x] = a
+						continue
+					}
+				}
 				if x.Op == token.MUL && te.loadHook != nil {
 					if a, ok := te.loadHook(x); ok {
 						fr.env[x] = a
@@ -453,6 +461,10 @@ func (te *tagEval) run(fr *frame, b *ssa.BasicBlock, pred *ssa.BasicBlock, depth
 				a, bb := te.val(fr, x.X), te.val(fr, x.Y)
 				if r, ok := te.binop(x.Op, a, bb); ok {
 					fr.env[x] = r
+				}
+			case *ssa.Store:
+				if te.storeObs != nil {
+					te.storeObs(x, te.val(fr, x.Val), func(v ssa.Value) aval { return te.val(fr, v) })
 				}
 			case *ssa.Call:
 				te.call(fr, x, depth, outs)
